@@ -56,6 +56,30 @@ func ExpErrors(errs []refexec.ErrEntry) []string {
 	return out
 }
 
+// ExpErrorsIndexless is ExpErrors with the element index dropped from the path of null errors of
+// scalar / enum list elements: generated code marshals such elements without a path context of their
+// own, so the error names the list (known finding exec.leaf-list-element-error-path-without-index).
+func ExpErrorsIndexless(errs []refexec.ErrEntry) []string {
+	var cp []refexec.ErrEntry
+	seen := map[string]bool{}
+	for _, e := range errs {
+		if e.LeafElem {
+			if j := strings.LastIndex(e.Path, "["); j >= 0 {
+				e.Path = e.Path[:j]
+			}
+			// all elements share the list's field context, so only the first null one is reported
+			if seen[e.Path] {
+				continue
+			}
+			seen[e.Path] = true
+		}
+		cp = append(cp, e)
+	}
+	return ExpErrors(cp)
+}
+
+const LeafElemPathKey = "exec.leaf-list-element-error-path-without-index"
+
 func sameStrings(a, b []string) bool {
 	if len(a) != len(b) {
 		return false
@@ -91,7 +115,14 @@ func Compare(vec string, ref *refexec.Result, resp *proj.Response, resolverKeys,
 	}
 	got, want := NormErrors(resp.Errors), ExpErrors(ref.Errors)
 	if !sameStrings(got, want) {
-		return vfrun.Failf("exec.errors-mismatch", "[%s] errors differ\n got: %q\nwant: %q", vec, got, want)
+		if sameStrings(got, ExpErrorsIndexless(ref.Errors)) {
+			f := vfrun.Failf(LeafElemPathKey, "[%s] the null error of a scalar list element names the list, not the element\n got: %q\nwant: %q", vec, got, want)
+			if !vfrun.IsKnown(f.Key) {
+				return f
+			}
+		} else {
+			return vfrun.Failf("exec.errors-mismatch", "[%s] errors differ\n got: %q\nwant: %q", vec, got, want)
+		}
 	}
 	if resolverKeys != nil && !sameStrings(resolverKeys, ref.Resolvers) {
 		return vfrun.Failf("exec.resolver-invocations", "[%s] resolver invocations differ\n got: %q\nwant: %q", vec, resolverKeys, ref.Resolvers)
